@@ -10,8 +10,8 @@ import hist
 import progs as P
 import values as V
 
-COQ_FILES = ("L4_Eval/DdsEval.v", "L4_Eval/RunEval.v", "L4_Eval/LoadProofs.v", "L3_Sig/SigTree.v", "L3_Sig/SigTreeProofs.v", "Properties/C09.v", "Properties/C09b.v")
-PROPERTY_FILES = ("C09", "C09b")
+COQ_FILES = ("L4_Eval/DdsEval.v", "L4_Eval/RunEval.v", "L4_Eval/LoadProofs.v", "L3_Sig/SigTree.v", "L3_Sig/SigTreeProofs.v", "L4_Eval/SoundnessLoadA.v", "L4_Eval/SoundnessLoad.v", "Properties/C09.v", "Properties/C09b.v", "Properties/C09c.v")
+PROPERTY_FILES = ("C09", "C09b", "C09c")
 EXTRACTED = ("ConstHash", "ConstSig")
 ALLOWED_AXIOMS = ()
 i_, s_ = V.i_, V.s_
@@ -98,7 +98,68 @@ def run_one(job):
         return {"error": str(e)[-1000:]}
 
 
+RAW_MOD = '''import dds
+def h():
+    return "hval"
+def g():
+    return dds.keep('/q', h)
+def mentions_but_never_calls():
+    x = g
+    return ('f', dds.load('/q'))
+def old():
+    return "old"
+def loads_own_path():
+    return ('f2', dds.load('/p'))
+'''
+RAW_RUN = '''import dds, sys, json
+dds.accept_module("rawpk9")
+dds.set_store("local", internal_dir=sys.argv[1] + "/i", data_dir=sys.argv[1] + "/d")
+import rawpk9.m as m
+from dds.structures import DDSException
+out = {}
+for name, thunk in (("byname-producer", lambda: dds.eval(m.mentions_but_never_calls)), ("prepare", lambda: dds.keep('/p', m.old)),
+                    ("root-keep-loads-own-path", lambda: dds.keep('/p', m.loads_own_path))):
+    try:
+        out[name] = "ok:" + repr(thunk())
+    except DDSException as e:
+        out[name] = "dds:" + (e.error_code.name if getattr(e, "error_code", None) is not None else "NONE")
+    except BaseException as e:
+        out[name] = "exc:" + type(e).__name__
+print("@@" + json.dumps(out))
+'''
+
+
+def run_raw(rep):
+    """Outside the generated grammar: a path whose only producer is a function that is mentioned by name but never called,
+    and a top-level keep whose function loads the very path it is kept at: nothing has produced the path when it is read."""
+    import os
+    import shutil
+    import tempfile
+    base = tempfile.mkdtemp(prefix="c09raw_", dir=C.scratch_dir())
+    try:
+        os.makedirs(os.path.join(base, "rawpk9"))
+        open(os.path.join(base, "rawpk9", "__init__.py"), "w").write("")
+        open(os.path.join(base, "rawpk9", "m.py"), "w").write(RAW_MOD)
+        open(os.path.join(base, "run.py"), "w").write(RAW_RUN)
+        env = C.impl_env()
+        env["PYTHONPATH"] = C.REPO + os.pathsep + base
+        rc, out = C.sh([C.PY, os.path.join(base, "run.py"), base], env=env, cwd=base, timeout=120)
+        line = [l for l in out.splitlines() if l.startswith("@@")]
+        if not line:
+            rep.violation("harness-error:c09raw", "raw scenario could not be run: " + out[-300:], {"out": out[-800:]}, no_input=True)
+            return
+        res = json.loads(line[-1][2:])
+        for name in ("byname-producer", "root-keep-loads-own-path"):
+            rep.case("raw:" + name)
+            if not res[name].startswith("dds:"):
+                rep.violation("read-before-produce:silently-returned:" + name, f"{name}: the evaluation reads a path that nothing has produced yet and "
+                              f"returns {res[name][:60]} instead of being rejected with a DDS error", {"module": RAW_MOD, "results": res})
+    finally:
+        shutil.rmtree(base, ignore_errors=True)
+
+
 def run(rep, tier, seed, proof_ok):
+    run_raw(rep)
     rep.rule = ("every placement of dds.load {root of the evaluated function, nested helper, function kept with dds.keep, data function} x "
                 "producer of the path {data function earlier in the same evaluation, dds.keep earlier in the same evaluation, later in "
                 "the same evaluation, an earlier evaluation, never} x {fresh, populated store} x {loaded value only returned, loaded "
